@@ -191,6 +191,23 @@ class C07(Prop):
                 return res
             if not (r1 == r2 == fresh) or ok1 != (not r1):
                 res.fail(("history-dependent-result", "plain"), "instance=%s" % impl.cj(x)[:200])
+        # an object instance may be any dict: one that invents members when read carelessly (defaultdict) must
+        # come out unchanged and be judged like the plain dict
+        import collections
+        for x in xs:
+            if isinstance(x, dict) and len(x) <= 4:
+                dd = collections.defaultdict(list, copy.deepcopy(x))
+                before = dict(dd)
+                try:
+                    r = ekeys(cls(copy.deepcopy(s)).iter_errors(dd))
+                    plain = ekeys(cls(copy.deepcopy(s)).iter_errors(copy.deepcopy(x)))
+                except Exception:
+                    continue
+                res.labels.append("defaultdict-instance")
+                if dict(dd) != before:
+                    res.fail(("instance-modified", "defaultdict"), "instance %r became %r" % (before, dict(dd)))
+                elif [(k[0], k[2], k[3]) for k in r] != [(k[0], k[2], k[3]) for k in plain]:      # messages embed repr()
+                    res.fail(("dict-subclass-judged-differently",), "instance=%s" % impl.cj(x)[:200])
         res.nontrivial = True
         return res
 
